@@ -9,6 +9,7 @@ Nothing of nutils is imported or executed; the sources are parsed with `ast`/`sy
 '''
 
 import argparse
+import ast
 import importlib
 import json
 import os
@@ -50,6 +51,14 @@ def _excused(o, repf, modelf):
     return False
 
 
+def _nested_defs(tree, _cache={}):
+    """names of the functions defined inside functions of a module (closures that a refactoring may have split off)"""
+    if id(tree) not in _cache:
+        _cache[id(tree)] = (tree, {d.name for f in ast.walk(tree) if isinstance(f, (ast.FunctionDef, ast.AsyncFunctionDef))
+                                   for d in ast.walk(f) if d is not f and isinstance(d, (ast.FunctionDef, ast.AsyncFunctionDef))})
+    return _cache[id(tree)][1]
+
+
 def _relevant(bad, root):
     """The modules to normalise (those of the failing constructs) and the private helpers whose calls to expand (the failing
     constructs themselves and what they call): the rest of the tree is left as written."""
@@ -71,7 +80,7 @@ def _relevant(bad, root):
             for n in ast.walk(fn.node):
                 if isinstance(n, ast.Call):
                     nm = n.func.attr if isinstance(n.func, ast.Attribute) else n.func.id if isinstance(n.func, ast.Name) else None
-                    if nm and nm.startswith('_'):
+                    if nm and (nm.startswith('_') or nm in _nested_defs(model.modules[m].tree)):
                         helpers.add(nm)
     return (frozenset(mods) or None), frozenset(helpers), {m: frozenset(q) for m, q in funcs.items() if m not in whole}
 
@@ -129,20 +138,50 @@ def analyse(pid, tier, root, evidence_dir=None, quiet=True, model=None):
     return rep
 
 
+def _new_helpers(root):
+    """Names of expandable private helpers (sa.normalize) of the tree under test that no function of the anchored tree carries."""
+    from sa.normalize import reference_names, _module_helpers
+    ref = reference_names()
+    out = set()
+    src_root = os.path.join(root, 'src', 'nutils')
+    for dirpath, _, files in os.walk(src_root):
+        for fn in files:
+            if not fn.endswith('.py'):
+                continue
+            path = os.path.join(dirpath, fn)
+            rel = os.path.relpath(path, src_root)[:-3].replace(os.sep, '.')
+            short = rel[:-len('.__init__')] if rel.endswith('.__init__') else rel
+            if short not in ref.get('__functions__', {}):
+                continue
+            known = set(ref['__functions__'][short])
+            try:
+                with open(path) as f:
+                    tree = ast.parse(f.read())
+            except (OSError, SyntaxError):
+                continue
+            out |= {h for h in _module_helpers(tree) if h not in known}
+    return frozenset(out)
+
+
 def _retry_with_reference_names(pid, tier, root, evidence_dir=None, quiet=True):
     """A rule that anchors on the NAME of a local gives up (AnalysisError) when that local was renamed.  Renaming locals consistently preserves
     behaviour, so the rules are run once more on the tree with the locals of every function renamed towards the reference naming of the anchored
     tree (oracles/local_names.json, by binding order).  Returns the complete report of that run, or None if it cannot be analysed either."""
     rep = None
-    for form in ('names', 'names+canon', 'names+vocab', 'names+all'):
+    attempts = [(form, None) for form in ('names', 'names+canon', 'names+vocab', 'names+all')]
+    new = _new_helpers(root)
+    if new:   # statements that were moved into a private helper which the anchored tree does not have: put them back (whole tree, these helpers only)
+        attempts += [(form, new) for form in ('helpers', 'names+helpers', 'names+canon+helpers', 'names+all+helpers')]
+    for form, hs in attempts:
         try:
-            rep, _ = _run_rules(pid, tier, root, form, evidence_dir=evidence_dir, quiet=quiet)
+            rep, _ = _run_rules(pid, tier, root, form, evidence_dir=evidence_dir, quiet=quiet, helpers=hs)
             break
         except Exception:
             rep = None
     if rep is None:
         return None
-    rep.extra_coverage['decided_on'] = f'the tree in normal form `{form}` (locals renamed to the reference naming; loops and conditionals in canonical spelling), because a rule could not find its anchor in the source as written'
+    rep.extra_coverage['decided_on'] = f'the tree in normal form `{form}` (locals renamed to the reference naming; loops and conditionals in canonical spelling' + \
+        (f'; calls of the private helpers {sorted(hs)}, which the anchored tree does not have, expanded' if hs else '') + '), because a rule could not find its anchor in the source as written'
     _decide_in_normal_forms(pid, tier, root, rep)
     return rep
 
